@@ -407,3 +407,41 @@ def check_config(ctx, F, cfg):
            "mutable uses of the formatted name between format! and push: %s" % tampered)
     ctx.count("counter-use-sites" + tag, len(users.get(FUNC, [])))
     ctx.floor("counter-use-sites" + tag, 1)
+    check_single_numbering(ctx, F, tag, bytes(bs))
+
+
+def check_single_numbering(ctx, F, tag, template):
+    """"No two calls in one process receive the same path" is carried by ONE numbering. A second function that also names files by
+    process id and a number drawn from a different static counter numbers independently: when it renders them through the same
+    template, the two functions hand out the same file name as soon as both counters pass the same value (refuted); with another
+    template whether the names can coincide depends on the text around them (undecided). No such function on the pinned tree."""
+    n = 0
+    for b in F.all_bodies():
+        if "::tests::" in b.name or b.name == FUNC or b.name.startswith("internal::"):
+            continue
+        n += 1
+        calls = list(b.calls())
+        if not any(callee_name(t) == "std::process::id" for _, t in calls):
+            continue
+        other = []
+        for bi, t in calls:
+            nm = callee_name(t)
+            if nm.split("::")[-1].startswith("fetch_") and "atomic" in nm and t["args"]:
+                a0 = b.term_of_operand(t["args"][0])
+                st = [x[1] for x in subterms(a0) if isinstance(x, tuple) and x and x[0] == "static"]
+                if st and st[0] != COUNTER:
+                    other.append((t, st[0]))
+        if not other:
+            continue
+        same = False
+        for bi, t in calls:
+            if callee_name(t).split("::<")[0] in ("std::fmt::Arguments", "core::fmt::Arguments") and t["args"]:
+                for x in subterms(b.term_of_operand(t["args"][0])):
+                    if x[0] == "bytes" and bytes(x[1]) == template:
+                        same = True
+        t, st = other[0]
+        ctx.ob("C20.R1.single-numbering", b.name + tag, loc(t["sp"]), False if same else None, "who-may-number",
+               "%s names by process id and a number drawn from %s, not from %s%s" % (
+                   b.name, st, COUNTER, ": through the template of temp_file_name -- equal counter values give equal file names" if same else
+                   "; whether its names can coincide with those of temp_file_name depends on the text around them"), positive=same)
+    ctx.count("bodies-scanned-for-second-numbering" + tag, n)
